@@ -18,3 +18,22 @@
 (declare-fun nullS (BS) BS)
 (declare-fun nullTok (BS) BB)
 (declare-fun unnullS (BS BB) BS)
+
+; ---- principal variations (property C07)
+; accS(s, m): the legality filter of the search accepts m in state s (the move is made and the mover's
+; king is not attacked afterwards).  lineS(s, a, off, n): the n moves a[off], a[off+1], ... are
+; accepted in order, each in the state reached by the previous ones.  lineS is defined by recursion on
+; n (axioms lineNil / lineCons in search/contracts_verif.go).
+(define-sort MvArr () (Array (_ BitVec 64) (_ BitVec 16)))
+(declare-fun inCheckS (BS B8) Bool)   ; names the answer of Board.InCheck(who) as a function of the board state
+(define-fun accS ((s BS) (m Mv)) Bool (not (inCheckS (mkS s m) (bvxor (bstm (mkS s m)) #x01))))
+(declare-fun lineS (BS MvArr (_ BitVec 64) (_ BitVec 64)) Bool)
+(define-fun lineNilOK ((s BS) (a MvArr) (off (_ BitVec 64))) Bool (lineS s a off #x0000000000000000))
+(define-fun lineConsOK ((s BS) (a MvArr) (off (_ BitVec 64)) (n (_ BitVec 64))) Bool
+  (=> (bvsgt n #x0000000000000000)
+      (= (lineS s a off n)
+         (and (accS s (select a off)) (lineS (mkS s (select a off)) a (bvadd off #x0000000000000001) (bvsub n #x0000000000000001))))))
+; a line depends only on the array segment it occupies (consequence of the two clauses above by induction on n)
+(define-fun lineSegOK ((s BS) (a MvArr) (i (_ BitVec 64)) (b MvArr) (j (_ BitVec 64)) (n (_ BitVec 64))) Bool
+  (=> (forall ((k (_ BitVec 64))) (=> (and (bvsle #x0000000000000000 k) (bvslt k n)) (= (select a (bvadd i k)) (select b (bvadd j k)))))
+      (= (lineS s a i n) (lineS s b j n))))
